@@ -1,8 +1,14 @@
 (* C16 — model of core/utils.py DataclassSerializer on a heap, so that reference cycles exist.
-   Objects are addressed by index (= id(obj)).  The walk cattrs does inside unstructure_to_dict has
-   no cycle guard; it is fuel-bounded here and running out of fuel is the model of RecursionError.
-   Field values are walked by their runtime class (exact for Any-typed fields and for instances that
-   conform to their annotations); keys are the already-renamed wire keys.  No proofs here. *)
+   Objects are addressed by index (= id(obj)).  Two kinds of dataclass instance are distinguished,
+   because cattrs treats them differently and the serializer's cycle protection depends on it:
+     SData : every attribute is annotated with something cattrs can follow (Any, resolvable classes):
+             unstructure_to_dict converts the whole sub-graph itself, WITHOUT any cycle guard;
+     SFwd  : reference attributes carry an unresolvable / partially quoted forward reference
+             (Optional["Node"], List["Node"], Dict[str, "Node"] on locally defined classes — the
+             shape the project's own tests use): cattrs leaves those attribute values as they are
+             and _ensure_all_dicts finishes the job, with the visited set.
+   Walks are fuel-bounded; running out of fuel is the model of RecursionError.  Keys are the
+   already-renamed wire keys.  No proofs here. *)
 From PG Require Import Lib.Strs Model.Converter.
 
 Inductive sobj :=
@@ -10,42 +16,77 @@ Inductive sobj :=
 | SScalar (j : json)                 (* str / int / float / bool *)
 | SList (items : list nat)
 | SDict (kvs : list (str * nat))
-| SData (fs : list (str * nat)).     (* a dataclass instance: wire key -> attribute *)
+| SData (fs : list (str * nat))      (* dataclass instance, attributes followed by cattrs *)
+| SFwd (fs : list (str * nat)).      (* dataclass instance, attributes left raw by cattrs *)
 
 Definition heap := list sobj.
 Definition deref (h : heap) (r : nat) : sobj := nth r h SNone.
 
-(* converter.unstructure(obj): full recursive conversion, no visited set *)
-Fixpoint cattrs_walk (fuel : nat) (h : heap) (r : nat) : result json :=
-  match fuel with
-  | O => Err                                        (* RecursionError *)
-  | S f =>
-      match deref h r with
-      | SNone => Ok JNull
-      | SScalar j => Ok j
-      | SList items => bind (map_result (cattrs_walk f h) items) (fun l => Ok (JArr l))
-      | SDict kvs | SData kvs =>
-          bind (map_result (fun kv => bind (cattrs_walk f h (snd kv)) (fun j => Ok (fst kv, j))) kvs)
-               (fun l => Ok (JObj l))
-      end
-  end.
+(* what converter.unstructure returns: JSON, with raw (unconverted) Python objects at some leaves *)
+Inductive mixed :=
+| MNull | MScalar (j : json) | MArr (l : list mixed) | MObj (kvs : list (str * mixed))
+| MRaw (r : nat).
+
+(* outcomes of the serializer *)
+Inductive sres (A : Type) :=
+| SOk (a : A)
+| SFuel          (* RecursionError (or the exponential walk it degenerates into) *)
+| SLeak.         (* returned data that is not JSON: a Python object was left inside *)
+Arguments SOk {A} a. Arguments SFuel {A}. Arguments SLeak {A}.
+
+Definition sbind {A B} (r : sres A) (f : A -> sres B) : sres B :=
+  match r with SOk a => f a | SFuel => SFuel | SLeak => SLeak end.
+
+Definition smap {A B} (f : A -> sres B) : list A -> sres (list B) :=
+  fix go (l : list A) : sres (list B) :=
+    match l with
+    | [] => SOk []
+    | x :: r => sbind (f x) (fun y => sbind (go r) (fun ys => SOk (y :: ys)))
+    end.
 
 Definition is_null (j : json) : bool := match j with JNull => true | _ => false end.
 
-(* _ensure_all_dicts on cattrs output (which holds no dataclass instance any more): drops None-valued
-   keys, before and after processing *)
-Fixpoint ensure_all_dicts (j : json) : json :=
-  match j with
-  | JObj kvs =>
-      JObj ((fix go (kvs : list (str * json)) : list (str * json) :=
-               match kvs with
-               | [] => []
-               | (k, v) :: r =>
-                   if is_null v then go r
-                   else let p := ensure_all_dicts v in if is_null p then go r else (k, p) :: go r
-               end) kvs)
-  | JArr l => JArr (map ensure_all_dicts l)
-  | _ => j
+(* converter.unstructure(obj): full recursive conversion by runtime class, no visited set; the
+   attributes of an SFwd instance are copied as they are *)
+Fixpoint cattrs_walk (fuel : nat) (h : heap) (r : nat) : sres mixed :=
+  match fuel with
+  | O => SFuel
+  | S f =>
+      match deref h r with
+      | SNone => SOk MNull
+      | SScalar j => SOk (MScalar j)
+      | SList items => sbind (smap (cattrs_walk f h) items) (fun l => SOk (MArr l))
+      | SDict kvs | SData kvs =>
+          sbind (smap (fun kv => sbind (cattrs_walk f h (snd kv)) (fun m => SOk (fst kv, m))) kvs)
+                (fun l => SOk (MObj l))
+      | SFwd kvs => SOk (MObj (map (fun kv => (fst kv, MRaw (snd kv))) kvs))
+      end
+  end.
+
+(* a raw object that is plain data is JSON as it stands; anything holding a dataclass instance (or a
+   cyclic container: json.dumps raises) is not *)
+Fixpoint raw_json (fuel : nat) (h : heap) (r : nat) : sres json :=
+  match fuel with
+  | O => SLeak
+  | S f =>
+      match deref h r with
+      | SNone => SOk JNull
+      | SScalar j => SOk j
+      | SList items => sbind (smap (raw_json f h) items) (fun l => SOk (JArr l))
+      | SDict kvs => sbind (smap (fun kv => sbind (raw_json f h (snd kv)) (fun j => SOk (fst kv, j))) kvs)
+                           (fun l => SOk (JObj l))
+      | SData _ | SFwd _ => SLeak
+      end
+  end.
+
+Fixpoint mixed_json (fuel : nat) (h : heap) (m : mixed) : sres json :=
+  match m with
+  | MNull => SOk JNull
+  | MScalar j => SOk j
+  | MArr l => sbind (smap (mixed_json fuel h) l) (fun l' => SOk (JArr l'))
+  | MObj kvs => sbind (smap (fun kv => sbind (mixed_json fuel h (snd kv)) (fun j => SOk (fst kv, j))) kvs)
+                      (fun l => SOk (JObj l))
+  | MRaw r => raw_json fuel h r
   end.
 
 Fixpoint remove_none_values (j : json) : json :=
@@ -60,23 +101,55 @@ Fixpoint remove_none_values (j : json) : json :=
   | _ => j
   end.
 
-(* _serialize_with_tracking(obj, visited) *)
-Fixpoint serialize (fuel : nat) (h : heap) (visited : list nat) (r : nat) : result json :=
+(* the dict loop of _ensure_all_dicts: a None value is skipped, and so is a value that becomes None *)
+Definition dict_loop {A} (ens : A -> sres json) : list (str * A) -> sres (list (str * json)) :=
+  fix go (kvs : list (str * A)) : sres (list (str * json)) :=
+    match kvs with
+    | [] => SOk []
+    | (k, v) :: r =>
+        sbind (ens v) (fun p => sbind (go r) (fun rest => SOk (if is_null p then rest else (k, p) :: rest)))
+    end.
+
+(* _ensure_all_dicts on cattrs output; [raw] handles an unconverted object *)
+Fixpoint ens_mixed (raw : nat -> sres json) (m : mixed) : sres json :=
+  match m with
+  | MNull => SOk JNull
+  | MScalar j => SOk j
+  | MArr l => sbind (smap (ens_mixed raw) l) (fun l' => SOk (JArr l'))
+  | MObj kvs => sbind (dict_loop (ens_mixed raw) kvs) (fun l => SOk (JObj l))
+  | MRaw r => raw r
+  end.
+
+(* [ser fuel h true]  = _serialize_with_tracking(obj, visited)
+   [ser fuel h false] = _ensure_all_dicts(obj, visited) on a raw (unconverted) object *)
+Fixpoint ser (fuel : nat) (h : heap) (top : bool) (visited : list nat) (r : nat) : sres json :=
   match fuel with
-  | O => Err
+  | O => SFuel
   | S f =>
       match deref h r with
-      | SNone => Ok JNull
-      | SScalar j => Ok j
+      | SNone => SOk JNull
+      | SScalar j => SOk j
       | o =>
-          if existsb (Nat.eqb r) visited then Ok JNull
-          else match o with
-               | SList items =>
-                   bind (map_result (serialize f h (r :: visited)) items) (fun l => Ok (JArr l))
-               | SData _ =>
-                   bind (cattrs_walk f h r) (fun j => Ok (remove_none_values (ensure_all_dicts j)))
-               | _ => bind (cattrs_walk f h r) (fun j => Ok (remove_none_values j))
-               end
+          if top then
+            if existsb (Nat.eqb r) visited then SOk JNull
+            else match o with
+                 | SList items =>
+                     sbind (smap (ser f h true (r :: visited)) items) (fun l => SOk (JArr l))
+                 | SData _ | SFwd _ =>
+                     sbind (cattrs_walk f h r) (fun m =>
+                     sbind (ens_mixed (ser f h false (r :: visited)) m) (fun j =>
+                     SOk (remove_none_values j)))
+                 | _ => (* dicts and everything else: cattrs, then only _remove_none_values *)
+                     sbind (cattrs_walk f h r) (fun m =>
+                     sbind (mixed_json f h m) (fun j => SOk (remove_none_values j)))
+                 end
+          else
+            match o with
+            | SData _ | SFwd _ => ser f h true visited r
+            | SDict kvs => sbind (dict_loop (ser f h false visited) kvs) (fun l => SOk (JObj l))
+            | SList items => sbind (smap (ser f h false visited) items) (fun l => SOk (JArr l))
+            | _ => SOk JNull
+            end
       end
   end.
 
@@ -92,14 +165,24 @@ Fixpoint no_null_keys (j : json) : bool :=
   | _ => true
   end.
 
-Definition serializer_ok (r : result json) : Prop := exists j, r = Ok j /\ no_null_keys j = true.
+Definition serializer_ok (r : sres json) : Prop := exists j, r = SOk j /\ no_null_keys j = true.
 
-(* executable guard (finding F16a and relatives): every reference stored in an object points to an
-   object with a smaller index — a topologically ordered, hence acyclic, heap *)
+Definition fuel_for (h : heap) : nat := 4 * length h + 8.
+Definition serialize_top (h : heap) (r : nat) : sres json := ser (fuel_for h) h true [] r.
+
+(* executable guards of the findings, for any heap: the walk of the faithful model neither exhausts
+   its recursion budget (F16a) nor leaves a Python object in the data (F16d) *)
+Definition guard_F16a (h : heap) (r : nat) : bool :=
+  match serialize_top h r with SFuel => false | _ => true end.
+Definition guard_F16d (h : heap) (r : nat) : bool :=
+  match serialize_top h r with SLeak => false | _ => true end.
+
+(* guard of the positive theorem: every stored reference points to a smaller index (topologically
+   ordered, hence acyclic), no forward-reference dataclass, scalar cells hold scalars *)
 Definition refs (o : sobj) : list nat :=
   match o with
   | SList items => items
-  | SDict kvs | SData kvs => map snd kvs
+  | SDict kvs | SData kvs | SFwd kvs => map snd kvs
   | _ => []
   end.
 Fixpoint ranked_from (i : nat) (h : heap) : bool :=
@@ -108,31 +191,9 @@ Fixpoint ranked_from (i : nat) (h : heap) : bool :=
   | o :: r => forallb (fun x => Nat.ltb x i) (refs o) && ranked_from (S i) r
   end.
 Definition ranked (h : heap) : bool := ranked_from 0 h.
-
-(* guard used by the correspondence run (any numbering): no cycle reachable from r passes through a
-   dict or a dataclass; decided by walking with an explicit path, fuel = heap size + 1 *)
-Fixpoint acyclic_walk (fuel : nat) (h : heap) (path : list nat) (r : nat) : bool :=
-  match fuel with
-  | O => false
-  | S f =>
-      if existsb (Nat.eqb r) path then false
-      else forallb (acyclic_walk f h (r :: path)) (refs (deref h r))
-  end.
-(* list objects on the serializer's own path are protected by the visited set; everything below a
-   dict / dataclass is walked by cattrs without protection *)
-Fixpoint guard_walk (fuel : nat) (h : heap) (visited : list nat) (r : nat) : bool :=
-  match fuel with
-  | O => false
-  | S f =>
-      match deref h r with
-      | SList items => if existsb (Nat.eqb r) visited then true
-                       else forallb (guard_walk f h (r :: visited)) items
-      | SDict _ | SData _ => if existsb (Nat.eqb r) visited then true
-                             else acyclic_walk (S (length h)) h [] r
-      | _ => true
-      end
-  end.
-Definition guard_F16a (h : heap) (r : nat) : bool := guard_walk (S (length h)) h [] r.
-
-Definition fuel_for (h : heap) : nat := 2 * length h + 4.
-Definition serialize_top (h : heap) (r : nat) : result json := serialize (fuel_for h) h [] r.
+Definition fwd_free (h : heap) : bool :=
+  forallb (fun o => match o with SFwd _ => false | _ => true end) h.
+Definition scalar_json (j : json) : bool :=
+  match j with JBool _ | JInt _ | JFloat _ | JStr _ => true | _ => false end.
+Definition scalars_ok (h : heap) : bool :=
+  forallb (fun o => match o with SScalar j => scalar_json j | _ => true end) h.
